@@ -112,7 +112,26 @@ class StoreRun:
                     if len(cov["samples"][j]["steps"]) < len(smp["steps"]):
                         cov["samples"][j] = smp
 
-        pool.run_all(todo, on_result, chunk=16)
+        variants = []
+
+        def on_result_collect(req, r):
+            on_result(req, r)
+            # the real flush wrote pages the specification's flush did not (drift): the property quantifies over every
+            # subset of the pages the REAL flush writes, so those subsets are explored too (same promise)
+            for idx, extra in (r.get("extra") or {}).items():
+                if r.get("diverged") or not r["ok"] or req.get("_variant"):
+                    continue
+                i = int(idx)
+                combos = [extra] + ([[e] for e in extra[:3]] if len(extra) > 1 else [])
+                for add in combos:
+                    v = json.loads(json.dumps({k: val for k, val in req.items() if k != "_variant"}))
+                    v["steps"][i]["written"] = sorted(set(v["steps"][i]["written"]) | set(add))
+                    v["_variant"] = True
+                    variants.append(v)
+        pool.run_all(todo, on_result_collect, chunk=16)
+        if variants:
+            st["flush_subset_variants_from_real_writes"] = len(variants)
+            pool.run_all(variants, on_result, chunk=16)
         cov["states"] += res.distinct
         cov["transitions"] += res.generated
         cov["traces_validated_against_impl"] += st["replayed"] - st["diverged"]
